@@ -10,7 +10,7 @@ scalar, `[]byte` or a message).  Field numbers 1 … 65535, distinct.
   * `dec_one / dec_fields / dec_fieldsR`   mutual induction over the type: one written field / the first encoder loop
                                            (non-repeated fields) / the second loop (repeated fields), each as a `Seg`
                                            of the decoder's struct loop
-  * `unmarshal_marshal_scalar`             plain messages (no `*T`, no `[]T`): `unmarshal ty (marshal ty v) = .ok v`
+  * `unmarshal_marshal_scalar`             plain messages (no `*T`, no `[]T`): `unmarshalU ty (marshal ty v) = .ok v`
                                            literally, including the empty encoding (all fields zero)
   * `unmarshal_marshal_partial`            the whole universe, up to `Spec.Protobuf.canonical` (nil ≡ empty)
   * `unmarshal_marshal_ptrmsg_partial`     the message passed by pointer (`Marshal(&msg)` / `Unmarshal(b, &ptr)`)
@@ -48,9 +48,9 @@ theorem accVal_cur (acc : List Val) :
 
 /-- the slice codec appends the decoded element to the slot -/
 theorem decode_slice (f : Nat) (ec : Codec) (num : Nat) (w : Wire) (emb : Bool) (d : Bytes) (acc : List Val) (fl : Flags)
-    (x : Val) (n : Nat) (h : decode f ec d (zeroOfCodec ec) {} = .ok (x, n)) :
-    decode (f + 1) (.slice ec num w emb) d (accVal acc) fl = .ok (accVal (acc ++ [x]), n) := by
-  simp only [decode, h, accVal_snoc]
+    (x : Val) (n : Nat) (h : decodeU f ec d (zeroOfCodec ec) {} = .ok (x, n)) :
+    decodeU (f + 1) (.slice ec num w emb) d (accVal acc) fl = .ok (accVal (acc ++ [x]), n) := by
+  simp only [decodeU, h, accVal_snoc]
   cases acc with
   | nil => rfl
   | cons a l => simp only [accVal, toList_ofList]
@@ -61,7 +61,7 @@ theorem dec_elems (cfsAll : CFields) (dfl : Flags) (e : Ty) (ec : Codec) (num : 
     (hlk : lookupField cfsAll num = some (pre.length, emb, false, .slice ec num ec.wire emb))
     (hstep : ∀ x, hasType e x = true → noEmptyPtr e x = true → (encode ec x wz).length < 2 ^ 64 →
       ∃ x', (if emb = true then ec.wire = .varlen else IsPayload ec.wire.num (encode ec x wz))
-        ∧ (∃ f, decode f ec (encode ec x wz) (zeroOfCodec ec) {} = .ok (x', (encode ec x wz).length))
+        ∧ (∃ f, decodeU f ec (encode ec x wz) (zeroOfCodec ec) {} = .ok (x', (encode ec x wz).length))
         ∧ canonical e x' = canonical e x) :
     ∀ (es : Vals) (acc : List Val), hasTypeList e es = true → noEmptyPtrList e es = true →
       (encodeSlice ec (encodeTag num ec.wire) emb es).length < 2 ^ 64 →
@@ -101,7 +101,7 @@ theorem dec_one (t : Ty) (o : FieldOpt) (v : Val) (efl dfl : Flags)
     (hlen : (encode (codecFor t o) v efl).length < 2 ^ 64) :
     ∃ v', (if isEmb t = true then (codecFor t o).wire = .varlen
             else IsPayload (codecFor t o).wire.num (encode (codecFor t o) v efl))
-      ∧ (∃ f, decode f (codecFor t o) (encode (codecFor t o) v efl) (zeroOf t) dfl
+      ∧ (∃ f, decodeU f (codecFor t o) (encode (codecFor t o) v efl) (zeroOf t) dfl
             = .ok (v', (encode (codecFor t o) v efl).length))
       ∧ Agr efl.wantzero t v' v := by
   by_cases hptr : isPtr t = true
@@ -125,7 +125,7 @@ theorem dec_one (t : Ty) (o : FieldOpt) (v : Val) (efl dfl : Flags)
         (ptrTarget_notSlice t' ht.1) hv hne.2 ho' hze hzd w hp hlen
       refine ⟨.ptr v', ?_, ⟨f + 1, ?_⟩, Agr.ptr hagr⟩
       · simpa only [Codec.wire] using hsh
-      · simp only [decode, zeroOf, zeroOfCodec_codecFor t' o ht.2, hdec, Res.bind]
+      · simp only [decodeU, zeroOf, zeroOfCodec_codecFor t' o ht.2, hdec, Res.bind]
   have hnp : isPtr t = false := by simpa using hptr
   by_cases hs : isStructTy t = true
   · cases t <;> simp only [isStructTy] at hs <;> try (exact absurd hs (by decide))
@@ -332,7 +332,7 @@ theorem dec_fieldsR (cfsAll : CFields) (fs : Fields) (vs us : Vals) (wzb : Bool)
           have hstep : ∀ x, hasType e x = true → noEmptyPtr e x = true → (encode (codecOf e) x wz).length < 2 ^ 64 →
               ∃ x', (if isStructTy e = true then (codecOf e).wire = .varlen
                       else IsPayload (codecOf e).wire.num (encode (codecOf e) x wz))
-                ∧ (∃ f, decode f (codecOf e) (encode (codecOf e) x wz) (zeroOfCodec (codecOf e)) {}
+                ∧ (∃ f, decodeU f (codecOf e) (encode (codecOf e) x wz) (zeroOfCodec (codecOf e)) {}
                       = .ok (x', (encode (codecOf e) x wz).length))
                 ∧ canonical e x' = canonical e x := by
             intro x hx hxne hxl
@@ -388,24 +388,24 @@ end
 
 /-! ## `Unmarshal(Marshal(v))` -/
 
-/-- the decoder run by `unmarshal` (its own fuel) agrees with any run that succeeded on the whole buffer -/
+/-- the decoder run by `unmarshalU` (its own fuel) agrees with any run that succeeded on the whole buffer -/
 theorem unmarshal_ok (t : Ty) (b : Bytes) (v' : Val) (hb : b ≠ [])
-    (h : ∃ f, decode f (codecOf t) b (zeroOf t) { toplevel := true } = .ok (v', b.length)) :
-    unmarshal t b = .ok v' := by
+    (h : ∃ f, decodeU f (codecOf t) b (zeroOf t) { toplevel := true } = .ok (v', b.length)) :
+    unmarshalU t b = .ok v' := by
   obtain ⟨f, hf⟩ := h
   have he : b.isEmpty = false := by cases b <;> simp_all
   have := decode_fuel_eq f (2 * b.length + 8 + Codec.height (codecOf t)) (codecOf t) b (zeroOf t) { toplevel := true }
     (by rw [hf]; simp) (by omega)
-  simp only [unmarshal, he, Bool.false_eq_true, if_false, this, hf, Nat.lt_irrefl]
+  simp only [unmarshalU, he, Bool.false_eq_true, if_false, this, hf, Nat.lt_irrefl]
 
 /-- **message level, general form**: for a message type of the universe and a well-typed value without
-"pointer to nothing-on-the-wire", `unmarshal` succeeds on what `marshal` wrote and returns a value that agrees with
+"pointer to nothing-on-the-wire", `unmarshalU` succeeds on what `marshal` wrote and returns a value that agrees with
 the original: equal in `canonical` form, and literally equal when the type is plain.  Covers the empty encoding (all
-fields zero ⇒ `marshal` writes nothing ⇒ `unmarshal` returns the zero value). -/
+fields zero ⇒ `marshal` writes nothing ⇒ `unmarshalU` returns the zero value). -/
 theorem unmarshal_marshal_agr (fs : Fields) (vs : Vals)
     (hty : tyOK (.struct fs) = true) (hv : hasTypes fs vs = true) (hne : noEmptyPtrs fs vs = true)
     (hlen : (marshal (.struct fs) (.struct vs)).length < 2 ^ 64) :
-    ∃ v', unmarshal (.struct fs) (marshal (.struct fs) (.struct vs)) = .ok v'
+    ∃ v', unmarshalU (.struct fs) (marshal (.struct fs) (.struct vs)) = .ok v'
       ∧ Agr false (.struct fs) v' (.struct vs) := by
   have hc : codecFor (.struct fs) { number := 0 } = codecOf (.struct fs) := by simp only [codecFor]
   have hm : marshal (.struct fs) (.struct vs)
@@ -448,7 +448,7 @@ its zero value) and for fields the encoder elides inside a non-empty message. -/
 theorem unmarshal_marshal_scalar (fs : Fields) (v : Val)
     (hty : tyOK (.struct fs) = true) (hpl : plainTy (.struct fs) = true) (hv : hasType (.struct fs) v = true)
     (hlen : (marshal (.struct fs) v).length < 2 ^ 64) :
-    unmarshal (.struct fs) (marshal (.struct fs) v) = .ok v := by
+    unmarshalU (.struct fs) (marshal (.struct fs) v) = .ok v := by
   cases v <;> simp only [hasType] at hv <;> try (exact absurd hv (by decide))
   rename_i vs
   obtain ⟨v', hdec, hagr⟩ := unmarshal_marshal_agr fs vs hty hv
@@ -469,7 +469,7 @@ through messages.
 theorem unmarshal_marshal_partial (fs : Fields) (v : Val)
     (hty : tyOK (.struct fs) = true) (hv : hasType (.struct fs) v = true) (hne : noEmptyPtr (.struct fs) v = true)
     (hlen : (marshal (.struct fs) v).length < 2 ^ 64) :
-    ∃ v', unmarshal (.struct fs) (marshal (.struct fs) v) = .ok v'
+    ∃ v', unmarshalU (.struct fs) (marshal (.struct fs) v) = .ok v'
       ∧ canonical (.struct fs) v' = canonical (.struct fs) v := by
   cases v <;> simp only [hasType] at hv <;> try (exact absurd hv (by decide))
   rename_i vs
@@ -484,7 +484,7 @@ theorem unmarshal_marshal_ptrmsg_partial (fs : Fields) (v : Val)
     (hty : tyOK (.ptr (.struct fs)) = true) (hv : hasType (.ptr (.struct fs)) (.ptr v) = true)
     (hne : noEmptyPtr (.ptr (.struct fs)) (.ptr v) = true)
     (hlen : (marshal (.ptr (.struct fs)) (.ptr v)).length < 2 ^ 64) :
-    ∃ v', unmarshal (.ptr (.struct fs)) (marshal (.ptr (.struct fs)) (.ptr v)) = .ok v'
+    ∃ v', unmarshalU (.ptr (.struct fs)) (marshal (.ptr (.struct fs)) (.ptr v)) = .ok v'
       ∧ canonical (.ptr (.struct fs)) v' = canonical (.ptr (.struct fs)) (.ptr v) := by
   have hc : codecFor (.ptr (.struct fs)) { number := 0 } = codecOf (.ptr (.struct fs)) := by simp only [codecFor]
   have hm : marshal (.ptr (.struct fs)) (.ptr v)
@@ -517,7 +517,7 @@ theorem unmarshal_marshal_ptrmsg_partial (fs : Fields) (v : Val)
 /-! ## non-vacuity -/
 
 /-- `unmarshal_marshal_scalar` on the two-level example of `ProtoWireRec` -/
-example : unmarshal (.struct exFields) (marshal (.struct exFields) (.struct exVals)) = .ok (.struct exVals) := by
+example : unmarshalU (.struct exFields) (marshal (.struct exFields) (.struct exVals)) = .ok (.struct exVals) := by
   have hm : (lookupProtobuf "").bind parseStructTag = none := modelTag_empty
   have hc : fieldsOf 1 exFields = exCodec := by
     simp [exFields, exInner, exCodec, fieldsOf, hm, fieldCodecOf, codecOf, isStructBase, baseTy]
@@ -527,9 +527,9 @@ example : unmarshal (.struct exFields) (marshal (.struct exFields) (.struct exVa
   · decide
   · rw [marshal_struct, hc]; decide
 
-/-- … and on the all-zero value of the same type: nothing is written, `unmarshal` returns the zero value -/
+/-- … and on the all-zero value of the same type: nothing is written, `unmarshalU` returns the zero value -/
 example : marshal (.struct exFields) (zeroOf (.struct exFields)) = []
-    ∧ unmarshal (.struct exFields) (marshal (.struct exFields) (zeroOf (.struct exFields)))
+    ∧ unmarshalU (.struct exFields) (marshal (.struct exFields) (zeroOf (.struct exFields)))
         = .ok (zeroOf (.struct exFields)) := by
   have hm : (lookupProtobuf "").bind parseStructTag = none := modelTag_empty
   have hc : fieldsOf 1 exFields = exCodec := by
@@ -545,7 +545,7 @@ example : marshal (.struct exFields) (zeroOf (.struct exFields)) = []
   · rw [marshal_struct, hc, hz]; decide
 
 /-- `unmarshal_marshal_partial` on the example with optional and repeated fields of `ProtoWireVal` -/
-example : ∃ v', unmarshal (.struct exPFields) (marshal (.struct exPFields) (.struct exPVals)) = .ok v'
+example : ∃ v', unmarshalU (.struct exPFields) (marshal (.struct exPFields) (.struct exPVals)) = .ok v'
     ∧ canonical (.struct exPFields) v' = canonical (.struct exPFields) (.struct exPVals) := by
   have hm : (lookupProtobuf "").bind parseStructTag = none := modelTag_empty
   have hc : fieldsOf 1 exPFields = exPCodec := by
